@@ -335,6 +335,41 @@ fn res_cases() -> Vec<ResCase> {
         ("timeout-sweep-nested", module(vec![("main", func(&[], vec![C::Repeat { n: b(int(2)), i: Some("i".into()), body: b(C::Repeat { n: b(int(2)), i: Some("j".into()), body: b(comp(vec![note(), note()])) }) }, sg("after", int(1))]))]), 2),
         ("timeout-sweep-while", module(vec![("main", func(&[], vec![sv("x", int(0)), C::While(b(bin(BinOp::Less, rv("x"), int(0))), b(note())), C::IfTrue(b(int(1)), b(note())), sg("after", int(1))]))]), 4),
     ];
+    // every budget on a chain of calls main -> f -> g: whatever instruction the budget ends on
+    // (also the call and return instructions themselves), the entries behind the first one are
+    // the call cards that lead to the function the first entry lies in
+    {
+        let m = module(vec![
+            ("main", func(&[], vec![sg("a", int(1)), sg("r", call("f", vec![int(3)])), sg("after", int(1))])),
+            ("f", func(&["x"], vec![sv("fl", add(rv("x"), int(1))), sg("c", call("g", vec![rv("fl")])), C::Return(b(rv("fl")))])),
+            ("g", func(&["y"], vec![sv("gl", add(rv("y"), int(1))), sg("d", rv("gl")), C::Return(b(rv("gl")))])),
+        ]);
+        let mut allowed = Vec::new();
+        for (fi, n) in [(0usize, 3u32), (1, 3), (2, 3)] {
+            for i in 0..n {
+                allowed.extend(subtree(&m, &loc(fi, &[i])));
+            }
+        }
+        for budget in 1..=70u64 {
+            v.push(ResCase { name: "timeout-chain", module: m.clone(), cfg: CfgLite { max_instr: budget, ..Default::default() }, kind: "?Timeout", allowed: allowed.clone(), chain_allowed: vec![loc(1, &[1, 0]), loc(0, &[1, 0])] });
+        }
+        // the same chain with callees that run off their end (their locals are popped by the
+        // instructions the compiler emits for the end of the scope)
+        let m = module(vec![
+            ("main", func(&[], vec![sg("a", int(1)), sg("r", call("f", vec![int(3)])), sg("after", int(1))])),
+            ("f", func(&["x"], vec![sv("fl", add(rv("x"), int(1))), sg("c", call("g", vec![rv("fl")])), sv("fl2", int(2))])),
+            ("g", func(&["y"], vec![sv("gl", add(rv("y"), int(1))), sg("d", rv("gl")), sv("gl2", rv("gl"))])),
+        ]);
+        let mut allowed = Vec::new();
+        for (fi, n) in [(0usize, 3u32), (1, 3), (2, 3)] {
+            for i in 0..n {
+                allowed.extend(subtree(&m, &loc(fi, &[i])));
+            }
+        }
+        for budget in 1..=70u64 {
+            v.push(ResCase { name: "timeout-chain", module: m.clone(), cfg: CfgLite { max_instr: budget, ..Default::default() }, kind: "?Timeout", allowed: allowed.clone(), chain_allowed: vec![loc(1, &[1, 0]), loc(0, &[1, 0])] });
+        }
+    }
     for (name, m, top) in loops {
         let allowed = not_comment(&m, top);
         for budget in 1..=90u64 {
@@ -344,7 +379,7 @@ fn res_cases() -> Vec<ResCase> {
     v
 }
 
-/// compile errors raised by a loop card itself (an empty loop variable name): (module, the loop card)
+/// every budget 1..70 on a chain of calls main -> f -> g: the entries behind the first one are the call cards leading to the function the first entry lies in (also when the budget ends on a call or return instruction); compile errors raised by a loop card itself (an empty loop variable name): (module, the loop card)
 fn loop_name_cases() -> Vec<(Module, Loc)> {
     let mut v = Vec::new();
     let empty = || Some(String::new());
@@ -420,6 +455,52 @@ fn run_res_case(c: &ResCase) -> Option<(String, String)> {
         ));
     }
     let rest = &got.trace[1..];
+    if c.name == "timeout-chain" {
+        // ground truth for "which function was executing": the call depth at every dispatched
+        // instruction of an unbounded run; budget N ends on the N-th instruction
+        let depths: Vec<usize> = {
+            let seq: std::rc::Rc<std::cell::RefCell<Vec<usize>>> = Default::default();
+            let s2 = seq.clone();
+            cao_lang::verif::reset();
+            let mut vm = realrun::new_vm(&c.module, &natives, &RunCfg { max_instr: 1_000_000, ..Default::default() });
+            cao_lang::verif::set_on_instr(Some(Box::new(move |ev, rt| {
+                if !ev.post {
+                    s2.borrow_mut().push(cao_lang::verif::call_depth(rt));
+                }
+            })));
+            let _ = vm.run(&prog);
+            cao_lang::verif::set_on_instr(None);
+            cao_lang::verif::reset();
+            let v = seq.borrow().clone();
+            v
+        };
+        if std::env::var("CVX_C15_SHOW").is_ok() {
+            eprintln!("C15SHOW budget {} depth {:?} result {} trace {:?}", c.cfg.max_instr, depths.get(c.cfg.max_instr as usize - 1), got.result, got.trace.iter().map(|l| format!("{}.{:?}", l.function, l.path)).collect::<Vec<_>>());
+        }
+        if let (Some(l), Some(depth)) = (t0, depths.get(c.cfg.max_instr as usize - 1)) {
+            // depth 1 = main, 2 = f, 3 = g
+            if l.function + 1 != *depth {
+                return Some((
+                    format!("resource:{}:wrong-function", c.name),
+                    format!("{} with {:?}: the budget ends on an instruction executed at call depth {depth} (function #{}), trace[0] is {} in function #{}", c.name, c.cfg, depth - 1, describe(&c.module, l), l.function),
+                ));
+            }
+        }
+        // the call cards that lead to the function of the first entry, innermost first
+        let want: Vec<Loc> = match t0.map(|l| l.function) {
+            Some(2) => vec![loc(1, &[1, 0]), loc(0, &[1, 0])],
+            Some(1) => vec![loc(0, &[1, 0])],
+            _ => vec![],
+        };
+        let got_chain: Vec<Loc> = rest.iter().take(want.len()).cloned().collect();
+        if got_chain != want || rest.len() > want.len() + 1 {
+            return Some((
+                format!("resource:{}:chain-vs-function", c.name),
+                format!("{} with {:?}: trace[0] is {} (function {}), the entries behind it are [{}], the call chain of that function is [{}]", c.name, c.cfg, t0.map(|l| describe(&c.module, l)).unwrap_or_default(), t0.map(|l| l.function).unwrap_or(0), rest.iter().map(|l| describe(&c.module, l)).collect::<Vec<_>>().join("; "), want.iter().map(|l| describe(&c.module, l)).collect::<Vec<_>>().join("; ")),
+            ));
+        }
+        return None;
+    }
     let n = rest.len();
     for (i, l) in rest.iter().enumerate() {
         let last = i + 1 == n;
@@ -445,7 +526,7 @@ impl Check for C15 {
     fn info(&self, tier: Tier) -> CheckInfo {
         let fams = families(tier);
         CheckInfo {
-            rule: "F-errinject: 5 base programs (calls at depth 0-2 with locals and arguments; three nested modules; closures and dynamic calls of script / native values with computed arguments; Repeat / ForEach / While / IfElse; table cards, dotted names and natives) x every value-producing card position x 5 injected failing expressions (missing native, wrong-type table operand, non-function callee, failing host function, PopTable of a string): trace[0] must be the location the reference interpreter reports for the card that raised the error, trace[1..] the call cards of the active chain innermost first with their namespaces, optionally followed by one entry for the program entry. F-compile-errloc: the same positions x 4 cards the compiler must reject (unknown function in Call / Function / inside a dynamic call, empty variable name): the error location must be that card. Resource errors with constructively known location: call-depth exhaustion (4 call-stack sizes), value-stack exhaustion (every stack size for 3 expression depths: the exact literal), OutOfMemory with live data (string literal, CreateTable, Closure, Function, NativeFunction, Get row, host-function allocation stored into a reachable table x 4 limits: the producing card or the storing SetProperty; SetProperty / AppendTable growth with integer values: exactly that card), Timeout (14 budgets: a card of the spinning loop, chain = the call card); every budget 1..90 on five programs whose loop bodies are Comment cards (Repeat named / anonymous, ForEach, nested Repeat, While + IfTrue): the reported card is never a Comment and always a card of main; compile errors raised by a loop card itself (empty loop variable name of Repeat / ForEach i, k, v at top level, in a composite, in a loop body, in a callee): exactly that card. 'states' = distinct (error location, chain) per chunk".into(),
+            rule: "F-errinject: 5 base programs (calls at depth 0-2 with locals and arguments; three nested modules; closures and dynamic calls of script / native values with computed arguments; Repeat / ForEach / While / IfElse; table cards, dotted names and natives) x every value-producing card position x 5 injected failing expressions (missing native, wrong-type table operand, non-function callee, failing host function, PopTable of a string): trace[0] must be the location the reference interpreter reports for the card that raised the error, trace[1..] the call cards of the active chain innermost first with their namespaces, optionally followed by one entry for the program entry. F-compile-errloc: the same positions x 4 cards the compiler must reject (unknown function in Call / Function / inside a dynamic call, empty variable name): the error location must be that card. Resource errors with constructively known location: call-depth exhaustion (4 call-stack sizes), value-stack exhaustion (every stack size for 3 expression depths: the exact literal), OutOfMemory with live data (string literal, CreateTable, Closure, Function, NativeFunction, Get row, host-function allocation stored into a reachable table x 4 limits: the producing card or the storing SetProperty; SetProperty / AppendTable growth with integer values: exactly that card), Timeout (14 budgets: a card of the spinning loop, chain = the call card); every budget 1..90 on five programs whose loop bodies are Comment cards (Repeat named / anonymous, ForEach, nested Repeat, While + IfTrue): the reported card is never a Comment and always a card of main; every budget 1..70 on a chain of calls main -> f -> g: the entries behind the first one are the call cards leading to the function the first entry lies in (also when the budget ends on a call or return instruction); compile errors raised by a loop card itself (empty loop variable name of Repeat / ForEach i, k, v at top level, in a composite, in a loop body, in a callee): exactly that card. 'states' = distinct (error location, chain) per chunk".into(),
             bound: format!("families {:?} + {} resource cases", fams.iter().map(|f| format!("{}={}", f.name(), f.len())).collect::<Vec<_>>(), res_cases().len()),
             exhaustive: true,
             assumptions: vec!["a Timeout on the implicit instructions behind the last card of a function (implicit return, exit of main) is reported one past the last card: no card owns them, such reports are not judged".into(), "errors raised inside library callbacks and host re-entry are excluded (frames created by run_function carry no call card)".into(), "injected cards that are not reached (dead branches) produce no error and are skipped".into()],
